@@ -76,7 +76,7 @@ theorem c19_rsocks_constructors :
 the translated automaton: `advRes`, `SleepUntil`) — has the source text those re-statements were written against
 (FNV-1a of the normalised bodies). A difference is not a violation by itself; it says the hand-written part must be re-read,
 and the `mclient`/`cliauto` streams, which run the real functions, are searched for a failing input. -/
-theorem c15_client_glue_pinned :
+theorem c15_c16_c19_client_glue_pinned :
     hashMclientRun = 8823502185001801136 ∧ hashMclientMonitor = 5931907665491495088 ∧
     hashFilterNetconfig = 6170598302862921982 ∧ hashAdvanceState = 5192006917054959880 ∧
     hashHackAbsoluteSleep = 2015223890260266535 := by decide
